@@ -17,7 +17,7 @@ HOOK = r'''        // ---- verification hook (added by /verif; environment stub 
             extern "Rust" {
                 fn __verif_svd_hook(
                     tid: TypeId, data: *const u8, nrows: usize, ncols: usize,
-                    u: *mut u8, s: *mut u8, vt: *mut u8,
+                    u: *mut u8, s: *mut u8, vt: *mut u8, eps: *const u8, max_niter: usize,
                 ) -> bool;
             }
             #[cfg(kani)]
@@ -30,6 +30,7 @@ HOOK = r'''        // ---- verification hook (added by /verif; environment stub 
                     TypeId::of::<T>(), matrix.as_slice().as_ptr() as *const u8, nrows.value(), ncols.value(),
                     u_out.as_mut_slice().as_mut_ptr() as *mut u8, s_out.as_mut_slice().as_mut_ptr() as *mut u8,
                     vt_out.as_mut_slice().as_mut_ptr() as *mut u8,
+                    &eps as *const T::RealField as *const u8, max_niter,
                 )
             };
             if handled {
@@ -46,8 +47,11 @@ KANI_FN = r'''
 /// verification hook used only under `cfg(kani)`; replaced with `#[kani::stub]` by harnesses
 #[cfg(kani)]
 #[allow(clippy::too_many_arguments)]
-pub unsafe fn verif_svd_hook_kani(_tid: core::any::TypeId, _data: *const u8, _nrows: usize, _ncols: usize, _u: *mut u8, _s: *mut u8, _vt: *mut u8) -> bool { false }
+pub unsafe fn verif_svd_hook_kani(_tid: core::any::TypeId, _data: *const u8, _nrows: usize, _ncols: usize, _u: *mut u8, _s: *mut u8, _vt: *mut u8, _eps: *const u8, _max_niter: usize) -> bool { false }
 '''
+
+
+VERSION = "v2-eps-maxniter"
 
 
 def find_registry_src():
@@ -82,7 +86,7 @@ def patch_file(path, anchor, insert, before=True):
 def generate(dst):
     src = find_registry_src()
     stamp = os.path.join(dst, ".verif-patched")
-    if os.path.exists(stamp):
+    if os.path.exists(stamp) and open(stamp).read().strip() == VERSION:
         return dst
     if os.path.exists(dst):
         shutil.rmtree(dst)
@@ -96,7 +100,7 @@ def generate(dst):
         add = KANI_FN.replace("\n", "\r\n") if "\r\n" in txt else KANI_FN
         with open(p, "w", newline="") as f:
             f.write(txt + add)
-    open(stamp, "w").write("ok\n")
+    open(stamp, "w").write(VERSION + "\n")
     return dst
 
 
